@@ -202,7 +202,9 @@ class ZopeInterfaceModuleVisitor(extensions.ModuleVisitorExt):
         if not isinstance(expr, ast.Call):
             return
         attr: Optional[model.Documentable] = self.visitor.builder.current.contents.get(target)
-        if attr is None:
+        if not isinstance(attr, model.Attribute):
+            # Nothing was created for this assignment, the name might
+            # still refer to a method or a nested class defined earlier.
             return
         funcName = astbuilder.node2fullname(expr.func, self.visitor.builder.current)
         if funcName is None:
